@@ -36,7 +36,18 @@ def scenario(i1a: int, i1b: int, i2a: int, perm: int, fault: int, point: int, du
     try:
         b = B.Bench(n_peers=2, apps=((4, "auth"),))
         n, app = b.node, b.apps[0]
-        c1, s1 = b.make_ready(b.peers[0], "10.0.1.1")
+        outbound = bool(P.get("outbound"))
+        cased = B.PEER_HOSTS[0].replace("peer1", "Peer1")          # the peer spells its identity with another letter case
+
+        def connect1():
+            if not outbound:
+                return b.make_ready(b.peers[0], "10.0.1.1")[0]
+            cx = b.dial(b.peers[0], "ok")
+            drain(cx)
+            b.inject(cx, B.cea(cased))
+            drain(cx)
+            return cx
+        c1 = connect1()
         c2, s2 = b.make_ready(b.peers[1], "10.0.1.2")
         conns = [c1, c2]
         # requests: 0 -> peer1/h1a, 1 -> peer2/h2a, 2 -> peer1/h1b
@@ -62,8 +73,7 @@ def scenario(i1a: int, i1b: int, i2a: int, perm: int, fault: int, point: int, du
                 drain(c1)
             elif f == "reconnect_1":
                 n.close_connection_socket(c1, B.DISCONNECT_REASON_GONE_AWAY)
-                c1n, _s = b.make_ready(b.peers[0], "10.0.1.1")
-                conns.append(c1n)
+                conns.append(connect1())
             elif f == "dpr_reconnect_1":
                 # the requester disconnects cleanly (DPR/DPA, then closes) and comes back
                 b.inject(c1, B.dpr(B.PEER_HOSTS[0], 4242, 4242))
@@ -123,6 +133,9 @@ def repro_equal_hbh():
 def specs(tier, seed, carve):
     out = []
     q = tier == "quick"
+    for pi in (0, 3):
+        out.append(dict(id="scenario/outbound_reconnect_1/perm%d" % pi, fn="scenario", params={"fault": FAULTS.index("reconnect_1"), "perm": pi, "pool": 3, "outbound": True}, timeout=900,
+                        bound="requester connection dialled by the node, peer identity in another letter case; requester lost and re-dialled at every point; answer order %r" % (PERMS[pi],)))
     for fi, fn_ in enumerate(FAULTS):
         for pi in range(6):
             out.append(dict(id="scenario/%s/perm%d" % (fn_, pi), fn="scenario", params={"fault": fi, "perm": pi, "pool": 3 if q else 5}, timeout=900 if q else 3000,
